@@ -124,6 +124,12 @@ def _check_source_cancel(tr, k, st, pf, remote):
             g = codec.dec_got(s.ob["extra"])[0]
             if g["kind"] == codec.K_EOF and g["cond"] != 0:
                 return
+    # PDUs that were still queued (not yet retrieved) when the cancel was requested come out first; they were
+    # produced before the cancel and are not what the property speaks about
+    queued_before = pf.get("qlen", 0)
+    if len(got) <= queued_before and queued_before:
+        return
+    got = got[queued_before:]
     if not got or got[0]["kind"] != codec.K_EOF:
         raise Failure(f"C12 the next PDU after a successful sender cancel is not an EOF: {[g['kind'] for g in got]} (op {st.i})")
     e = got[0]
